@@ -29,12 +29,20 @@ def caseWf (c : Init.Case) : Bool :=
 
 def metaWf (c : MetaCase) : Bool := caseWf c.on && caseWf c.off && sameSpec c
 
-def metaSpec (_ : MetaCase) (o : MetaObs) : Bool := o.on == o.off && o.diff == []
+def metaSpec (_ : MetaCase) (o : MetaObs) : Bool :=
+  o.on == o.off && o.diff == [] && o.resetOn == o.resetOff
+
+/-- K6 ("slotted confused"): the slotted build resets an inherited attrs-made `__setattr__` only when a direct
+    base carries the flag itself, the dict build when the flag resolved along the MRO is true; with a plain
+    class as the direct base of the leaf and a hooked attrs class above it the slotted leaf keeps the
+    ancestor's hooks (they fire during `__init__` / `__attrs_init__` and on assignment), the dict leaf does not -/
+def metaResetDiffers (c : MetaCase) : Bool := metaSlotsReset c != metaDictReset c
 
 /-- K3 (a frozen dict class stores an inherited slot field in `__dict__`, where lookup does not find it) can
     only hit the dict build (`C01_misplaced_needs_frozen_dict`): the two builds then differ. -/
 def metaKnown (c : MetaCase) : List String :=
-  if c.off.eff.attrs.any (C01.misplaced c.off.eff) || c.on.eff.attrs.any (C01.misplaced c.on.eff) then ["K3"] else []
+  (if c.off.eff.attrs.any (C01.misplaced c.off.eff) || c.on.eff.attrs.any (C01.misplaced c.on.eff) then ["K3"] else []) ++
+  (if metaResetDiffers c then ["K6"] else [])
 
 def metaCheck : Check MetaCase MetaObs :=
   { model := metaModel, spec := metaSpec, wf := metaWf, known := metaKnown }
